@@ -76,7 +76,7 @@ FirstFix(g, Nl, F) ==
                   i \in {j \in 1 .. Len(rhs(p)) :
                            \A k \in 1 .. j - 1 : IsRule(rhs(p)[k]) /\ RuleOf(rhs(p)[k]) \in Nl} }
           : p \in RawProdsOf(g, r) }
-      F2 == [r \in 0 .. g.nr - 1 |-> step(r)]
+      F2 == TLCEval([r \in 0 .. g.nr - 1 |-> step(r)])
   IN IF F2 = F THEN F ELSE FirstFix(g, Nl, F2)
 
 MkCtx(g) ==
@@ -85,7 +85,7 @@ MkCtx(g) ==
   IN  [nt |-> g.nt, eof |-> g.eof, nr |-> g.nr, np |-> g.np,
        startprod |-> g.startprod, startrule |-> g.startrule,
        prods |-> g.prods, tprec |-> g.tprec, pprec |-> g.pprec, avoid |-> g.avoid,
-       prodsof |-> [i \in 1 .. g.nr |-> RawProdsOf(g, i - 1)],
+       prodsof |-> TLCEval([i \in 1 .. g.nr |-> RawProdsOf(g, i - 1)]),
        nullable |-> Nl, first |-> F]
 
 EmptyCtx == [nt |-> 0]
@@ -111,7 +111,7 @@ FollowFix(Fo) ==
             LET rest == SubSeq(Rhs(p), i + 1, PLen(p)) IN
             FirstOfSeq(rest) \cup (IF NullableSeq(rest) THEN Fo[Lhs(p)] ELSE {})
           : i \in {j \in 1 .. PLen(p) : Rhs(p)[j] = RSym(r)} } : p \in Prods }
-      Fo2 == [r \in Rules |-> Fo[r] \cup contrib(r)]
+      Fo2 == TLCEval([r \in Rules |-> Fo[r] \cup contrib(r)])
   IN IF Fo2 = Fo THEN Fo ELSE FollowFix(Fo2)
 Follow == FollowFix([r \in Rules |-> IF r = C.startrule THEN {EOF} ELSE {}])
 
@@ -159,7 +159,7 @@ SeqLang(S, rhs, i, L) ==
 
 RECURSIVE LangFix(_, _)
 LangFix(S, L) ==
-  LET S2 == [r \in Rules |-> S[r] \cup UNION { SeqLang(S, Rhs(p), 1, L) : p \in ProdsOf(r) }]
+  LET S2 == TLCEval([r \in Rules |-> S[r] \cup UNION { SeqLang(S, Rhs(p), 1, L) : p \in ProdsOf(r) }])
   IN IF S2 = S THEN S ELSE LangFix(S2, L)
 LangOf(L) == LangFix([r \in Rules |-> {}], L)
 Lang(L) == LangOf(L)[C.startrule]
@@ -175,8 +175,8 @@ SeqPre(S, P, rhs, i, L) ==      \* prefixes of strings derived from rhs[i..]
        IN hdP \cup { s \in { a \o b : a \in hdL, b \in tl } : Len(s) <= L }
 RECURSIVE PreFix(_, _, _)
 PreFix(S, P, L) ==
-  LET P2 == [r \in Rules |-> P[r] \cup
-               { s \in UNION { SeqPre(S, P, Rhs(p), 1, L) : p \in ProdsOf(r) } : Len(s) <= L }]
+  LET P2 == TLCEval([r \in Rules |-> P[r] \cup
+               { s \in UNION { SeqPre(S, P, Rhs(p), 1, L) : p \in ProdsOf(r) } : Len(s) <= L }])
   IN IF P2 = P THEN P ELSE PreFix(S, P2, L)
 \* NB: sentences may be longer than L, so prefixes are computed with rule languages bounded by
 \* L as well: a prefix of length <= L only ever needs complete factors of length <= L.
